@@ -37,6 +37,17 @@ static bool vx_is_array, vx_is_object, vx_contains; static size_t vx_size;
 static unsigned vx_visits, vx_key_visits; static uint64_t vx_visited;
 #define VX_AT(i) do { __CPROVER_assert((i) < vx_size, "[C05][C14] array element access is in bounds"); vx_visited = (i); vx_visits++; } while (0)
 #define VX_AT_KEY() do { vx_key_visits++; } while (0)
+/* edits of the final step: each records what was modified and where */
+static unsigned vx_appends, vx_inserts, vx_erases, vx_assigns, vx_obj_sets, vx_obj_adds, vx_obj_erases; static uint64_t vx_mod_index;
+#define VX_MODS() (vx_appends + vx_inserts + vx_erases + vx_assigns + vx_obj_sets + vx_obj_adds + vx_obj_erases)
+#define VX_NOMOD() (vx_appends == 0 && vx_inserts == 0 && vx_erases == 0 && vx_assigns == 0 && vx_obj_sets == 0 && vx_obj_adds == 0 && vx_obj_erases == 0)
+#define VX_APPEND() do { vx_appends++; } while (0)
+#define VX_INSERT(i) do { __CPROVER_assert((i) <= vx_size, "[C05][C14] array insertion position is within [0, size]"); vx_mod_index = (i); vx_inserts++; } while (0)
+#define VX_ERASE(i) do { __CPROVER_assert((i) < vx_size, "[C05][C14] erased array element is in bounds"); vx_mod_index = (i); vx_erases++; } while (0)
+#define VX_ASSIGN(i) do { __CPROVER_assert((i) < vx_size, "[C05][C14] replaced array element is in bounds"); vx_mod_index = (i); vx_assigns++; } while (0)
+#define VX_OBJ_SET() do { vx_obj_sets++; } while (0)
+#define VX_OBJ_ADD() do { vx_obj_adds++; } while (0)
+#define VX_OBJ_ERASE() do { vx_obj_erases++; } while (0)
 /* dec_to_integer<uint64_t> is used through its contract (proved in unit integers) */
 enum { VX_ERRC_ok = 0, VX_ERRC_invalid_argument = 22, VX_ERRC_result_out_of_range = 34 };
 struct to_number_result { const char* ptr; int ec; };
@@ -49,6 +60,11 @@ static spec_u128 vx_h; static size_t vx_h_i;
 /*@FUNC to_string_token@*/
 /*@FUNC parse@*/
 /*@FUNC resolve_get@*/
+/*@FUNC resolve_mut@*/
+/*@FUNC add_final@*/
+/*@FUNC add_if_absent_final@*/
+/*@FUNC remove_final@*/
+/*@FUNC replace_final@*/
 
 #ifdef VX_CBMC
 #include <stdlib.h>
@@ -67,14 +83,21 @@ void h_escape_string(void) { setup_in(); escape_string(); }
 void h_to_string_token(void) { setup_in(); to_string_token(); }
 void h_parse(void) { setup_in(); int ec = 0; parse(&ec); }
 static char vx_tok[SPEC_INT_MAXLEN];
-void h_resolve_get(void)
+static int vx_ec;
+static void setup_resolve(void)
 {
-    int ec = 0;
+    vx_ec = 0;
     __CPROVER_havoc_object(vx_tok);
     vx_len = nondet_size(); __CPROVER_assume(vx_len <= SPEC_INT_MAXLEN);
     vx_s = vx_tok; vx_k = spec_digit_prefix(vx_tok, vx_len); vx_h = 0; vx_h_i = 0;
     vx_is_array = nondet_bool(); vx_is_object = nondet_bool(); vx_contains = nondet_bool(); vx_size = nondet_size();
     vx_visits = 0; vx_key_visits = 0;
-    resolve_get(&ec);
+    vx_appends = 0; vx_inserts = 0; vx_erases = 0; vx_assigns = 0; vx_obj_sets = 0; vx_obj_adds = 0; vx_obj_erases = 0;
 }
+void h_resolve_get(void) { setup_resolve(); resolve_get(&vx_ec); }
+void h_resolve_mut(void) { setup_resolve(); resolve_mut(nondet_bool(), &vx_ec); }
+void h_add_final(void) { setup_resolve(); add_final(nondet_bool(), &vx_ec); }
+void h_add_if_absent_final(void) { setup_resolve(); add_if_absent_final(nondet_bool(), &vx_ec); }
+void h_remove_final(void) { setup_resolve(); remove_final(&vx_ec); }
+void h_replace_final(void) { setup_resolve(); replace_final(nondet_bool(), &vx_ec); }
 #endif
